@@ -5,7 +5,7 @@ from checklib import Scenario
 
 RULE = ("small trees with every consulted file assigned owner in {0, 1234}, group in {0, 4321} and kind in {regular, symlink "
         "to a regular file} (real chown/symlink; the check runs as root) x every combination of required owner / required group "
-        "/ no-symlink rule x readFile, readDirs, readDirsHistory, readConfig; then the same read after "
+        "/ no-symlink rule x readFile, readDirs, readDirsHistory, readConfig, with absolute names and (a third of the cases) names relative to the working directory; then the same read after "
         "econf_reset_security_settings; the oracle checks on the implementation's fopen log that no file violating a rule in "
         "force is ever opened; the specific code of the first violating file and everything else through the model; "
         "distinct by scenario")
@@ -14,18 +14,22 @@ def gen(rng, tier):
     n = 200 if tier == "quick" else 15000
     out = []
     for _ in range(n):
-        st = laylib.setup(rng, mode=rng.choice([0, 0, 1, 2]), owners=True, links=True)
+        rel = rng.random() < 0.35
+        st = laylib.setup(rng, mode=rng.choice([0, 0, 1, 2]), owners=True, links=True, relative=rel)
         ow = rng.choice(["-", "0", "1234"]); gr = rng.choice(["-", "0", "4321"]); nl = rng.choice(["0", "0", "1"])
         files = laylib.files_of(st["cmds"])
         cmds = st["cmds"] + st["pre"] + ["sec %s %s %s" % (ow, gr, nl), st["read"], "dump 0"]
         obs = [False] * (len(st["cmds"]) + len(st["pre"]) + 1) + [True, True]
         if st["hist"]: cmds.append(st["hist"]); obs.append(True)
-        if files: cmds.append("readfile 1 %s x3d x23" % enc(rng.choice(files))); obs.append(True)
+        if files:
+            f = rng.choice(files)
+            if rel: f = rng.choice([f.lstrip(b"/"), b"./" + f.lstrip(b"/")])
+            cmds.append("readfile 1 %s x3d x23" % enc(f)); obs.append(True)
         # after the reset everything is accepted again
         cmds += ["sec - - 0"] + (st["pre"] if st["mode"] != 0 else []) + [st["read"].replace(" 0 ", " 2 ", 1) if st["mode"] == 0 else st["read"], "dump %d" % (2 if st["mode"] == 0 else 0)]
         obs += [False] + ([False] * len(st["pre"]) if st["mode"] != 0 else []) + [True, True]
         s = Scenario(cmds, obs, tags=("own%s-grp%s-nl%s" % (ow, gr, nl),))
-        s.meta = {"owner": ow, "group": gr, "nolinks": nl, "tree": st["cmds"]}
+        s.meta = {"owner": ow, "group": gr, "nolinks": nl, "tree": st["cmds"], "relative": rel}
         out.append(s)
     return out
 
@@ -33,11 +37,11 @@ def oracle(s, ilines):
     import re
     meta = getattr(s, "meta", None)
     if not meta: return None
-    attrs = {}
+    attrs, links = {}, {}
     for c in meta["tree"]:
         t = c.split()
         if t[0] == "fsfile": attrs[vlib.dec(t[1])] = ("file", t[3], t[4])
-        if t[0] == "fslink": attrs[vlib.dec(t[1])] = ("link", t[3], t[4])
+        if t[0] == "fslink": attrs[vlib.dec(t[1])] = ("link", t[3], t[4]); links[vlib.dec(t[1])] = vlib.dec(t[2])
     active = True
     for c, l in zip(s.cmds, ilines):
         t = c.split()
@@ -46,11 +50,19 @@ def oracle(s, ilines):
             m = re.search(r"opens=(\S*)", l)
             for p in [x for x in (m.group(1).split(",") if m else []) if x]:
                 path = re.sub(rb"/+", b"/", vlib.dec(p))
-                a = attrs.get(path)
-                if not a: continue
-                if meta["nolinks"] == "1" and a[0] == "link": return "symbolic link %s opened while links are forbidden" % path
-                if meta["owner"] != "-" and a[1] != meta["owner"]: return "file %s of owner %s opened while owner %s is required" % (path, a[1], meta["owner"])
-                if meta["group"] != "-" and a[2] != meta["group"]: return "file %s of group %s opened while group %s is required" % (path, a[2], meta["group"])
+                if not path.startswith(b"/"): path = b"/" + re.sub(rb"^(\./)+", b"", path)
+                # a name not starting with '/' is opened through realpath(): the name fopen sees is then the
+                # link's target, while the rules apply to the consulted name — any consulted name leading here counts
+                cands = [path] + ([l for l, tg in links.items() if tg == path] if meta.get("relative") else [])
+                why = None
+                for cnd in cands:
+                    a = attrs.get(cnd)
+                    if not a: why = None; break
+                    if meta["nolinks"] == "1" and a[0] == "link": why = "symbolic link %s opened while links are forbidden" % cnd
+                    elif meta["owner"] != "-" and a[1] != meta["owner"]: why = "file %s of owner %s opened while owner %s is required" % (cnd, a[1], meta["owner"])
+                    elif meta["group"] != "-" and a[2] != meta["group"]: why = "file %s of group %s opened while group %s is required" % (cnd, a[2], meta["group"])
+                    else: why = None; break
+                if why: return why
     return None
 
 def nontrivial(s, mlines):
